@@ -135,7 +135,7 @@ def execute(plan, sim):
     import warnings
     warnings.simplefilter("ignore")
     if plan["source"] == "real":
-        data = nodes.serialize(plan["cfg"], plan["ops"], None)
+        data = nodes.serialize_input(plan["cfg"], plan["ops"], None)
     else:
         data, _, _, _ = c04.build_stream(plan, sim)
     bounds = wire.split_delimited(data)
